@@ -393,3 +393,78 @@ theorem chain_replicate_idem (k : Kind) : ∀ (n : Nat) (ir out : IR),
 
 end Kinds
 end Py
+
+namespace Py
+namespace Kinds
+
+/-! ### entries are converted independently (what the per-entry correspondence of C02–C05 rests on) -/
+
+/-- what kind `k` does to one entry -/
+def entryFn (k : Kind) (n : Str) (p : Param) : Param :=
+  match k with
+  | .cls => normClassParam p
+  | .func _ => normFuncParam p
+  | .argparse => normArgparseParam p
+  | .doc st => normDocEntry st n p
+
+/-- the description that holds one parameter only -/
+def single (n : Str) (p : Param) : IR := { doc := [], params := [(n, p)], returns := none }
+
+theorem norm_params (k : Kind) (ir : IR) :
+    (norm k ir).params = ir.params.map (fun kp => (kp.1, entryFn k kp.1 kp.2)) := by
+  cases k <;> simp [norm, mapParams, entryFn]
+
+theorem norm_single (k : Kind) (n : Str) (p : Param) : norm k (single n p) = single n (entryFn k n p) := by
+  cases k <;> simp [norm, mapParams, entryFn, single]
+
+theorem noUndefaulted_single (n : Str) (p : Param) : noUndefaultedAfterDefaulted [(n, p)] false = true := by
+  unfold noUndefaultedAfterDefaulted
+  by_cases h : p.default.isSome = true
+  · simp [h, noUndefaultedAfterDefaulted]
+  · simp [h, noUndefaultedAfterDefaulted]
+
+/-- an entry of a description inside a kind's domain is, taken alone, inside that domain -/
+theorem dom_single (k : Kind) (ir : IR) (n : Str) (p : Param) (h : dom k ir = true) (hm : (n, p) ∈ ir.params) :
+    dom k (single n p) = true := by
+  cases k with
+  | cls =>
+    simp only [dom, Bool.and_eq_true, List.all_eq_true] at h
+    have := h.1 (n, p) hm
+    simp [dom, single, this]
+  | func i =>
+    simp only [dom, Bool.and_eq_true, List.all_eq_true] at h
+    have := h.1 (n, p) hm
+    simp [dom, single, this]
+  | argparse =>
+    simp only [dom, Bool.and_eq_true, List.all_eq_true] at h
+    have := h.1 (n, p) hm
+    simp [dom, single, this]
+  | doc st =>
+    simp only [dom, Bool.and_eq_true, List.all_eq_true] at h
+    have := h.1.1 (n, p) hm
+    cases st <;> simp [dom, single, this, noUndefaulted_single]
+
+/-- **entry-wise chains**: when a whole description goes through a chain of kinds inside their domains, every
+    one of its entries, taken alone, goes through the same chain inside the domains, and comes out as the entry the
+    whole result has under that name -/
+theorem chain_single : ∀ (ks : List Kind) (ir out : IR), chain ks ir = some out →
+    ∀ n p, (n, p) ∈ ir.params → ∃ p', chain ks (single n p) = some (single n p') ∧ (n, p') ∈ out.params
+  | [], ir, out, h, n, p, hm => by
+    simp only [chain, Option.some.injEq] at h
+    subst h
+    exact ⟨p, rfl, hm⟩
+  | k :: ks, ir, out, h, n, p, hm => by
+    simp only [chain] at h
+    by_cases hd : dom k ir = true
+    · simp only [hd, if_true] at h
+      have hm' : (n, entryFn k n p) ∈ (norm k ir).params := by
+        rw [norm_params]
+        exact List.mem_map.mpr ⟨(n, p), hm, rfl⟩
+      obtain ⟨p', hc, ho⟩ := chain_single ks (norm k ir) out h n (entryFn k n p) hm'
+      refine ⟨p', ?_, ho⟩
+      simp only [chain, dom_single k ir n p hd hm, if_true, norm_single]
+      exact hc
+    · simp [hd] at h
+
+end Kinds
+end Py
